@@ -6,8 +6,13 @@ PROPS = {
     'C01': dict(
         rules=[geo.geo_curv, geo.parity, kernel.row_rec, kernel.sib_grav, kernel.ker_consist,
                kernel.ker_skew,
-               incr.cs_rules, incr.cs_exact, rot.rot_series, rot.rot_exp, geo.wgs_const],
+               incr.cs_rules, incr.cs_exact, rot.rot_series, rot.rot_exp, geo.wgs_const,
+               integrator.carrier, integrator.predict_eff, integrator.kernel_via,
+               integrator.wa_forward],
         decided=['compiled gravity copy equals earth.gravity',
+                 'the public Integrator hands the kernel the state it was given and hands out the '
+                 'rows the kernel wrote, under the documented labels (carriers, row slice, '
+                 'columns, altitude flag)',
                  'the constants behind the symbols (WGS-84 values, gravity at equator and poles, '
                  'degree/radian factors)',
                  'one-step map first-order consistent with the navigation equations built '
@@ -46,6 +51,7 @@ PROPS = {
                    'numerical round trip of Euler angles']),
     'C09': dict(
         rules=[lambda c: sched.def_path(c, (sched.FB,)),
+               lambda c: purity.pur_arg(c, ('filters',)),
                lambda c: sched.sched_epochs(c, (sched.FB,)),
                lambda c: sched.sched_mcursor(c, (sched.FB,)),
                lambda c: sched.sched_no_overtake(c, (sched.FB,)),
@@ -72,6 +78,7 @@ PROPS = {
         assumptions=['sample time index strictly increasing (input precondition)']),
     'C10': dict(
         rules=[lambda c: sched.def_path(c, (sched.FF,)),
+               lambda c: purity.pur_arg(c, ('filters',)),
                lambda c: sched.sched_epochs(c, (sched.FF,)),
                lambda c: sched.sched_mcursor(c, (sched.FF,)),
                lambda c: sched.sched_no_overtake(c, (sched.FF,)),
@@ -122,8 +129,11 @@ PROPS = {
     'C13': dict(
         rules=[integrator.alt_freeze, integrator.es_copy, integrator.es_2drows,
                meas.meas_shape, meas.meas_noise, kernel.row_rec, errmodel.em_2d,
-               integrator.wa_forward],
+               integrator.wa_forward, integrator.predict_eff],
         decided=['the 2-row noise covariance is the north/east block of the 3-row one',
+                 'the rows handed out are the rows the kernel wrote, labelled with the documented '
+                 'Trajectory columns in the order of the buffers (the frozen altitude and the zero '
+                 'vertical velocity reach the columns alt and VD)',
                  'every writer of the velocity carrier stores vertical velocity zero and altitude '
                  'is copied (constructor, kernel, set_pva)',
                  '2-D correction returns input altitude and vertical velocity',
@@ -206,7 +216,7 @@ PROPS = {
                  'exponents of bias / white noise / bias walk'],
         undecided=['empirical variances of simulated noise', 'numerical inverse property']),
     'C11': dict(
-        rules=[layout.layout_state, layout.layout_noise, layout.layout_prov, layout.p0_form,
+        rules=[lambda c: purity.pur_arg(c, ('filters',)), layout.layout_state, layout.layout_noise, layout.layout_prov, layout.p0_form,
                layout.rec_order, kal.q_psd, geo.unit_const,
                lambda c: sched.sched_epochs(c, (sched.FF,)),
                lambda c: sched.sched_mcursor(c, (sched.FF,)),
@@ -234,7 +244,7 @@ PROPS = {
         undecided=['numerical equality of estimates, covariances and innovations with an '
                    'independent batch (Gauss-Markov) solution']),
     'C12': dict(
-        rules=[layout.est_rules, sensor.sm_accum, sensor.sm_sign,
+        rules=[lambda c: purity.pur_arg(c, ('filters',)), layout.est_rules, sensor.sm_accum, sensor.sm_sign,
                lambda c: sched.sched_handover(c, (sched.FB,)), kal.q_psd, idxdom.idx_domain,
                interp.interp_rules, interp.fb_epoch, layout.corr_pair,
                lambda c: sched.sched_epochs(c, (sched.FB, sched.FF)),
